@@ -2,6 +2,7 @@ package sim
 
 import (
 	"fmt"
+	"sort"
 	"strings"
 	"time"
 
@@ -68,7 +69,7 @@ func groupBySQLScenario(r *Run, mode string) {
 	if byTime {
 		key = "k, t"
 	}
-	sql := fmt.Sprintf("SELECT %s, COUNT(v) AS c, SUM(v) AS s, MIN(v) AS m FROM sim.s s GROUP BY %s%s", key, key, cfg.sql())
+	sql := fmt.Sprintf("SELECT %s, COUNT(v) AS c, SUM(v) AS s, MIN(v) AS m, ARRAY_AGG(v) AS a FROM sim.s s GROUP BY %s%s", key, key, cfg.sql())
 	attrs := map[string]string{"trigger": cfg.Kinds(), "by_time": fmt.Sprint(byTime)}
 	if noClause {
 		attrs["trigger"] = "none"
@@ -120,6 +121,7 @@ func groupBySQLScenario(r *Run, mode string) {
 	type acc struct {
 		key         []octosql.Value
 		n, sum, min int64
+		vals        []int64
 	}
 	groups := map[string]*acc{}
 	var order []string
@@ -138,15 +140,21 @@ func groupBySQLScenario(r *Run, mode string) {
 			}
 			g.n++
 			g.sum += rw[2].Int
+			g.vals = append(g.vals, rw[2].Int)
 		}
 	}
 	for _, ks := range order {
 		g := groups[ks]
 		rw := append([]octosql.Value{}, g.key...)
 		if g.n > 0 {
-			rw = append(rw, octosql.NewInt(g.n), octosql.NewInt(g.sum), octosql.NewInt(g.min))
+			sort.Slice(g.vals, func(i, j int) bool { return g.vals[i] < g.vals[j] })
+			list := make([]octosql.Value, len(g.vals))
+			for i, x := range g.vals {
+				list[i] = octosql.NewInt(x)
+			}
+			rw = append(rw, octosql.NewInt(g.n), octosql.NewInt(g.sum), octosql.NewInt(g.min), octosql.NewList(list))
 		} else {
-			rw = append(rw, octosql.NewNull(), octosql.NewNull(), octosql.NewNull())
+			rw = append(rw, octosql.NewNull(), octosql.NewNull(), octosql.NewNull(), octosql.NewNull())
 		}
 		want.Add(rw, 1)
 	}
